@@ -11,11 +11,19 @@ Notation ww := (wp pw_out).
 (* a: the state is known to be dead (stopping / stopped / start Deferred fired); b: moreover no processor result is
    awaited ("drained").  Both persist through every method.  w: the window.  Invariants 13 and 6 of the model: while alive a pending
    processor result implies a block in progress; a stopped consumer awaits no processor result. *)
+Definition pw_neutral (o : output) : bool := match o with OStartD _ _ | OShutD _ _ _ => true | _ => false end.
 Definition inv13b (s : state) : bool := dead s || implb (is_some (s_proc s)) (is_some (s_mblock s)).
 Definition inv6b (s : state) : bool := implb (negb (is_some (s_startd s))) (negb (is_some (s_proc s))).
 Definition PInv (d : bool * bool) (w : option (Z * Z)) (s : state) : Prop :=
-  (0 <=? c_acn (s_cf s)) && inv13b s && inv6b s && implb (fst d) (dead s) && implb (snd d) (negb (is_some (s_proc s)))
-  && implb (snd d) (fst d) = true.
+  (0 <=? c_acn (s_cf s)) && inv13b s && inv6b s && forallb pw_neutral (s_pend s)
+  && implb (fst d) (dead s) && implb (snd d) (negb (is_some (s_proc s))) && implb (snd d) (fst d) = true.
+Definition PInvF (d : bool * bool) (s : state) : Prop :=      (* the part of PInv that does not speak of the processor *)
+  (0 <=? c_acn (s_cf s)) && forallb pw_neutral (s_pend s) && implb (fst d) (dead s) = true.
+Lemma PInvF_of d w s : PInv d w s -> PInvF d s.
+Proof.
+  unfold PInv, PInvF. intro K. repeat (apply andb_prop in K; destruct K as [K ?]).
+  repeat (apply andb_true_intro; split); auto.
+Qed.
 Definition PQ (d : bool * bool) (w : option (Z * Z)) {A} : res A -> gpw -> state -> Prop :=
   fun _ g s => g = pw_abs w s /\ PInv d w s.
 
@@ -50,7 +58,7 @@ Ltac bool_hyps :=
   | H : true = false |- _ => discriminate H
   | H : false = true |- _ => discriminate H
   end.
-Ltac bcomp := cbn [negb andb orb implb is_some w_st w_plan w_lp] in *.
+Ltac bcomp := rewrite ?forallb_app in *; cbn [negb andb orb implb is_some w_st w_plan w_lp forallb pw_neutral] in *.
 Ltac case1 :=
   match goal with
   | |- context [match s_proc ?s with _ => _ end] => destruct (s_proc s) as [[[? ?] ?]|] eqn:?
@@ -67,7 +75,7 @@ Ltac case1 :=
   | H : context [s_stopping ?s] |- _ => destruct (s_stopping s) eqn:?
   | |- context [s_stopping ?s] => destruct (s_stopping s) eqn:?
   end.
-Ltac unf := unfold PQ, PF, Fp, PInv, inv13b, inv6b, pw_abs, dead, startd_unfired in *.
+Ltac unf := unfold PQ, PF, Fp, PInv, PInvF, inv13b, inv6b, pw_abs, dead, startd_unfired in *.
 Ltac pfin :=
   psimpl; bcomp; bool_hyps; rw_eqs; bcomp;
   first [ reflexivity | assumption | congruence | discriminate ].
@@ -129,6 +137,7 @@ Ltac destr_post H :=
 Ltac cur_w :=
   match goal with
   | K : PInv _ ?w0 _ |- _ => w0
+  | K : PInvF _ _ |- _ => constr:(@None (Z * Z))
   end.
 Ltac after_call :=
   let r := fresh "r" in let H := fresh "P" in
@@ -193,7 +202,7 @@ Ltac c6 := idtac; first [ c5 | lazymatch goal with
    EProcFire / OCancelProc), the model still holding the Deferred (or not yet: synchronous result) *)
 Definition fired (s : state) (last : Z) (fk : option Z) : gpw :=
   mkPW PIdle (s_plan s) (match fk with None => Some last | Some _ => s_lp s end).
-Lemma p_proc_chain last fk d s : PInv d None s ->
+Lemma p_proc_chain last fk d s : PInvF d s ->
   ww (proc_chain last fk)
      (fun r g' s' => (g' = pw_abs None s' /\ PInv (fst d, fst d) None s') /\ s_proc s' = None /\ s_mblock s' = s_mblock s
                      /\ s_plan s' = s_plan s /\ s_stopping s' = s_stopping s)
@@ -298,3 +307,321 @@ Qed.
 Lemma p_finish_block d w s : PInv d w s -> (is_some w = true -> snd d = true) -> dead s || negb (is_some (s_proc s)) = true ->
   ww (finish_block rec) (PQ d w) (pw_abs w s) s.
 Proof. intros K W N. unfold finish_block. p_walk c9. all: p_done. Qed.
+Ltac c10 := idtac; first [ c9 | lazymatch goal with
+  | |- wp _ (handle_commit_error _ _ _ _) _ _ _ =>
+    let w0 := cur_w in eapply p_eq with (w := w0); [ solve [psolve] |
+      eapply wp_call; [ eapply p_handle_commit_error; [ pinv_arg | wcond ] | after_call ] ]
+  | |- wp _ (fire_all _ _ _) _ _ _ =>
+    let w0 := cur_w in eapply p_eq with (w := w0); [ solve [psolve] |
+      eapply wp_call; [ eapply p_fire_all; [ pinv_arg | wcond ] | after_call ] ]
+  | |- wp _ (finish_block _) _ _ _ =>
+    let w0 := cur_w in eapply p_eq with (w := w0); [ solve [psolve] |
+      eapply wp_call; [ eapply p_finish_block; [ pinv_arg | wcond | solve [lsolve] ] | after_call ] ]
+  end ].
+
+(* stop()'s cancellation of the processor's Deferred: afterwards the state is drained *)
+Lemma p_stop_proc (d : bool * bool) w s : PInv (true, false) w s -> (is_some w = true -> s_proc s = None) ->
+  ww (stop_proc rec) (PQ (true, true) w) (pw_abs w s) s.
+Proof.
+  intros K W. unfold stop_proc. apply wp_bind, wp_get. cbn beta iota.
+  destruct (s_proc s) as [[[l rest] c]|] eqn:D.
+  - destruct w as [[wl wr]|]; [specialize (W eq_refl); discriminate W|].
+    apply wp_bind. apply wp_emit. eexists. split.
+    { unfold pw_abs. cbn [pw_out w_st]. rewrite D. reflexivity. }
+    cbn beta iota. apply wp_swallow.
+    eapply wp_conseq; [apply (Hrec (KFireProc (Some FK_CANCELLED)) (true, false) None) |].
+    + cbn [PreD]. rewrite D. repeat split; auto.
+    + intros r g' s' [-> [H | (E & _)]]; [split; auto | discriminate E].
+  - apply wp_ret. split; [reflexivity|]. psolve.
+Qed.
+Lemma p_stop_req d w s : PInv d w s ->
+  ww stop_req (fun r g' s' => PF d w s r g' s' /\ r = Ok tt) (pw_abs w s) s.
+Proof. intro K. unfold stop_req, PF, Fp. p_walk c10. all: p_done. Qed.
+Lemma p_stop_rcall d w s : PInv d w s -> ww stop_rcall (PF d w s) (pw_abs w s) s.
+Proof. intro K. unfold stop_rcall, PF, Fp. p_walk c10. all: p_done. Qed.
+Lemma p_stop_creq d w s : PInv d w s -> (is_some w = true -> snd d = true) -> ww (stop_creq rec) (PQ d w) (pw_abs w s) s.
+Proof. intros K W. unfold stop_creq. p_walk c10. all: p_done. Qed.
+Lemma p_stop_ccall d w s : PInv d w s -> ww stop_ccall (PF d w s) (pw_abs w s) s.
+Proof. intro K. unfold stop_ccall, PF, Fp. p_walk c10. all: p_done. Qed.
+Lemma p_stop_looper d w s : PInv d w s -> ww stop_looper (PF d w s) (pw_abs w s) s.
+Proof. intro K. unfold stop_looper, PF, Fp. p_walk c10. all: p_done. Qed.
+Lemma p_stop_susp d w s : PInv d w s -> ww stop_susp (PF d w s) (pw_abs w s) s.
+Proof. intro K. unfold stop_susp, PF, Fp. p_walk c10. all: p_done. Qed.
+Ltac c11 := idtac; first [ c10 | lazymatch goal with
+  | |- wp _ stop_rcall _ _ _ => p_docall p_stop_rcall
+  | |- wp _ stop_ccall _ _ _ => p_docall p_stop_ccall
+  | |- wp _ stop_looper _ _ _ => p_docall p_stop_looper
+  | |- wp _ stop_susp _ _ _ => p_docall p_stop_susp
+  | |- wp _ (stop_creq _) _ _ _ =>
+    let w0 := cur_w in eapply p_eq with (w := w0); [ solve [psolve] |
+      eapply wp_call; [ eapply p_stop_creq; [ pinv_arg | wcond ] | after_call ] ]
+  end ].
+
+Ltac fin_k := try solve [ split; [ solve [psolve] | left; solve [psolve] ] ].
+Lemma p_body_KStop d w s : PInv d w s -> (is_some w = true -> s_proc s = None) ->
+  ww (body rec KStop) (PostD KStop d w s) (pw_abs w s) s.
+Proof.
+  intros K W. cbn [body]. unfold PostD, dmode.
+  apply wp_bind, wp_get. cbn beta iota. destruct (s_startd s) as [b|] eqn:SD.
+  2:{ apply wp_raise. split; auto. }
+  apply wp_bind, wp_upd. cbn beta iota.
+  (* stopping: the state is dead from here on *)
+  assert (K1 : PInv (true, false) w (set_stopping true s)) by psolve. clear K.
+  apply wp_bind. p_docall_d p_stop_req (true, false). all: try discriminate. all: fin_k.
+  (* the parked reply is dropped *)
+  unfold stop_mblock. apply wp_bind, wp_bind, wp_get. cbn beta iota.
+  assert (W' : is_some w = true -> s_proc s' = None)
+    by (intro; match goal with H : s_proc s' = _ |- _ => rewrite H end; psimpl; auto).
+  match goal with |- wp _ (match ?x with _ => _ end) _ _ _ => destruct x eqn:MB end; wp_prim; cbn beta iota.
+  all: apply wp_bind; eapply p_eq with (w := w); [reflexivity|];
+    (eapply wp_call; [ apply (p_stop_proc (true, false) w); [ psolve | psimpl; exact W' ] |]);
+    after_call; fin_k;
+    unfold stop_startd; p_walk c11; fin_k.
+Qed.
+
+Lemma p_body_KStopCds d w s : PInv d w s -> (is_some w = true -> snd d = true) ->
+  ww (body rec KStopCds) (PostD KStopCds d w s) (pw_abs w s) s.
+Proof. intros K W. cbn [body]. unfold PostD, dmode. p_walk c11. all: fin_k. Qed.
+Lemma p_body_KFetchResp offs ts d w s : PInv d w s -> (is_some w = true -> snd d = true) ->
+  ww (body rec (KFetchResp offs ts)) (PostD (KFetchResp offs ts) d w s) (pw_abs w s) s.
+Proof. intros K W. cbn [body]. unfold PostD, dmode. p_walk c11. all: fin_k. Qed.
+Lemma p_body_KCommitAndStop d w s : PInv d w s -> (is_some w = true -> snd d = true) ->
+  ww (body rec KCommitAndStop) (PostD KCommitAndStop d w s) (pw_abs w s) s.
+Proof. intros K W. cbn [body]. unfold PostD, dmode. p_walk c11. all: fin_k. Qed.
+Lemma p_body_KShutFinish fk d w s : PInv d w s -> (is_some w = true -> snd d = true) ->
+  ww (body rec (KShutFinish fk)) (PostD (KShutFinish fk) d w s) (pw_abs w s) s.
+Proof. intros K W. cbn [body]. unfold PostD, dmode. p_walk c11. all: fin_k. Qed.
+Lemma p_body_KFireCd x r d w s : PInv d w s -> (is_some w = true -> snd d = true) ->
+  ww (body rec (KFireCd x r)) (PostD (KFireCd x r) d w s) (pw_abs w s) s.
+Proof. intros K W. cbn [body]. unfold PostD, dmode. p_walk c11. all: fin_k. Qed.
+Lemma p_body_KDeliver r d w s : PInv d w s -> (is_some w = true -> snd d = true) ->
+  ww (body rec (KDeliver r)) (PostD (KDeliver r) d w s) (pw_abs w s) s.
+Proof. intros K W. cbn [body]. unfold PostD, dmode. p_walk c11. all: fin_k. Qed.
+
+Lemma PInv_drained d s : PInv d None s -> s_proc s = None -> PInv (fst d, fst d) None s.
+Proof. intros K N. psolve. Qed.
+
+Lemma PInv_dead a b w s : PInv (a, b) w s -> a = true -> dead s = true.
+Proof. intros K ->. unfold PInv in K. cbn [fst snd implb] in K. repeat (apply andb_prop in K; destruct K as [K ?]). assumption. Qed.
+Lemma PInv_13 d w s : PInv d w s -> dead s = false -> is_some (s_proc s) = true -> is_some (s_mblock s) = true.
+Proof.
+  intros K D P. unfold PInv, inv13b in K. repeat (apply andb_prop in K; destruct K as [K ?]).
+  rewrite D, P in *. cbn in *. assumption.
+Qed.
+
+Lemma p_body_KFireProc fk d w g s : PreD (KFireProc fk) d w g s ->
+  ww (body rec (KFireProc fk)) (PostD (KFireProc fk) d w s) g s.
+Proof.
+  intro Pre. cbn [body PreD] in *. unfold PostD, dmode.
+  apply wp_bind, wp_get. cbn beta iota.
+  destruct (s_proc s) as [[[last rest] cont]|] eqn:SP.
+  2:{ destruct Pre as (-> & K & W). apply wp_ret. split; [reflexivity|]. left. psolve. }
+  destruct Pre as (-> & -> & K).
+  (* alive before => a block is in progress (invariant 13); the mode remembers whether the state was dead *)
+  assert (K0 : PInv (dead s || fst d, false) None s) by psolve.
+  apply wp_bind. eapply wp_call; [ apply (p_proc_chain last fk _ s (PInvF_of _ _ _ K0)) |].
+  intros r g' s' ((-> & K') & N & MB & PL & ST). cbn [fst] in K'. destruct r as [r|x]; cbn beta iota.
+  2:{ split; [reflexivity|]. left. psolve. }
+  assert (K2 : PInv (fst d, fst d) None s') by psolve.
+  assert (L2 : loop_ok s').
+  { unfold loop_ok. destruct (dead s') eqn:DS'; [reflexivity|]. rewrite N, MB. cbn.
+    destruct (dead s) eqn:DS; [ rewrite (PInv_dead _ _ _ _ K' eq_refl) in DS'; discriminate DS' |].
+    apply (PInv_13 _ _ _ K DS). rewrite SP. reflexivity. }
+  apply wp_bind.
+  assert (Hloop : forall Q : res unit -> gpw -> state -> Prop,
+            (forall g2 s2, g2 = pw_abs None s2 -> PInv (fst d, fst d) None s2 -> Q (Ok tt) g2 s2) ->
+            ww (match r with None => swallow (rec (KProcLoop rest)) | Some _ => ret tt end) Q (pw_abs None s') s').
+  { intros Q HQ. destruct r.
+    - apply wp_ret. apply HQ; auto.
+    - apply wp_swallow. eapply wp_conseq; [ apply (Hrec_loop rest (fst d, fst d) None s' K2); [intro; discriminate | exact L2] |].
+      intros r0 g2 s2 [-> H2]. apply HQ; auto. }
+  apply Hloop. intros g2 s2 -> K3. cbn beta iota.
+  destruct cont.
+  - apply wp_swallow. eapply wp_conseq; [ apply (Hrec_plain KCommitAndStop (fst d, fst d) None s2 K3); [intro; discriminate | exact I] |].
+    intros r0 g3 s3 [-> H3]. split; [reflexivity | left; exact H3].
+  - apply wp_ret. split; [reflexivity | left; exact K3].
+Qed.
+
+Lemma blk_nonempty acn (m0 : Z) l : 0 <= acn ->
+  exists tl, take (if acn =? 0 then length (m0 :: l) else Z.to_nat acn) (m0 :: l) = m0 :: tl.
+Proof.
+  intro H. destruct (acn =? 0) eqn:E.
+  - cbn. eauto.
+  - apply Z.eqb_neq in E. destruct (Z.to_nat acn) eqn:N; [lia|]. cbn. eauto.
+Qed.
+Lemma PInv_acn d w s : PInv d w s -> 0 <= c_acn (s_cf s).
+Proof. intro K. unfold PInv in K. repeat (apply andb_prop in K; destruct K as [K ?]). apply Z.leb_le. assumption. Qed.
+Lemma loop_ok_alive s : loop_ok s -> dead s = false -> s_proc s = None /\ is_some (s_mblock s) = true.
+Proof.
+  unfold loop_ok. intros L D. rewrite D in L. cbn in L. apply andb_prop in L. destruct L as [L1 L2].
+  split; auto. destruct (s_proc s); [discriminate L1 | reflexivity].
+Qed.
+Lemma loop_ok_fin s : loop_ok s -> dead s || negb (is_some (s_proc s)) = true.
+Proof. unfold loop_ok. destruct (dead s); cbn; auto. intro L. apply andb_prop in L. tauto. Qed.
+
+
+(* after the processor call returned with result code r (the monitor has been told): record the pending Deferred or
+   run its callbacks, then go on with the rest of the block *)
+Definition tail_of (last : Z) (rest : list Z) (r : Z) : M unit :=
+  if r =? 2
+  then upd (set_proc (Some (last, rest, false)));;;
+       s0 <- get;;
+       (if s_stopping s0 || negb (is_some (s_startd s0))
+        then emit OCancelProc;;; _ <- proc_chain last (Some FK_CANCELLED);; finish_block rec
+        else ret tt)
+  else r0 <- proc_chain last (if r =? 0 then None else Some FK_PROC);;
+       s0 <- get;;
+       (if s_stopping s0 || negb (is_some (s_startd s0))
+        then finish_block rec
+        else match r0 with
+             | Some k => raise k
+             | None => rec (KProcLoop rest)
+             end).
+Lemma p_tail last rest r st :
+  PInv (false, false) None st -> s_proc st = None -> dead st || is_some (s_mblock st) = true ->
+  ww (tail_of last rest r) (PQ (false, false) None) (pw_finish (mkPW PIdle (s_plan st) (s_lp st)) last r) st.
+Proof.
+  intros K SP MB. unfold tail_of, pw_finish. cbn [w_plan w_lp]. destruct (r =? 2) eqn:R2.
+  - apply wp_bind, wp_upd. cbn beta iota. apply wp_bind, wp_get. cbn beta iota. psimpl.
+    destruct (s_stopping st || negb (is_some (s_startd st))) eqn:DD.
+    + apply wp_bind, wp_emit. eexists. split; [reflexivity|]. cbn beta iota.
+      assert (KF : PInvF (false, false) (set_proc (Some (last, rest, false)) st)) by psolve.
+      apply wp_bind. eapply wp_call; [ apply (p_proc_chain last (Some FK_CANCELLED) _ _ KF) |].
+      intros r1 g1 s1 ((-> & K1) & N1 & MB1 & _). cbn [fst] in K1. destruct r1; cbn beta iota; [| split; auto].
+      eapply wp_conseq; [ apply (p_finish_block (false, false) None s1 K1); [intro; discriminate | rewrite N1; apply orb_true_r] |].
+      intros ? ? ? H; exact H.
+    + apply wp_ret. split; [reflexivity | psolve].
+  - assert (KF : PInvF (dead st, false) st) by psolve.
+    assert (G : (if r =? 0 then mkPW PIdle (s_plan st) (Some last) else mkPW PIdle (s_plan st) (s_lp st))
+                = fired st last (if r =? 0 then None else Some FK_PROC)) by (unfold fired; destruct (r =? 0); reflexivity).
+    rewrite G. apply wp_bind. eapply wp_call; [ apply (p_proc_chain last _ _ _ KF) |].
+    intros r1 g1 s1 ((-> & K1) & N1 & MB1 & _). cbn [fst] in K1. destruct r1 as [r1|]; cbn beta iota; [| split; [reflexivity | psolve]].
+    apply wp_bind, wp_get. cbn beta iota.
+    assert (K1' : PInv (false, false) None s1) by psolve.
+    destruct (s_stopping s1 || negb (is_some (s_startd s1))) eqn:DD.
+    + eapply wp_conseq; [ apply (p_finish_block (false, false) None s1 K1'); [intro; discriminate | rewrite N1; apply orb_true_r] |].
+      intros ? ? ? H; exact H.
+    + destruct r1 as [k|]; [ apply wp_raise; split; auto |].
+      eapply wp_conseq; [ apply (Hrec_loop rest (false, false) None s1 K1'); [intro; discriminate |] |].
+      * unfold loop_ok. rewrite N1, MB1. cbn. destruct (dead s1) eqn:D1; [reflexivity|]. cbn.
+        destruct (dead st) eqn:D0; [ rewrite (PInv_dead _ _ _ _ K1 eq_refl) in D1; discriminate D1 | exact MB ].
+      * intros ? ? ? H; exact H.
+Qed.
+
+Lemma p_body_KProcLoop msgs d w s : PInv d w s -> (is_some w = true -> snd d = true) -> loop_ok s ->
+  ww (body rec (KProcLoop msgs)) (PostD (KProcLoop msgs) d w s) (pw_abs w s) s.
+Proof.
+  intros K W L. cbn [body]. unfold PostD, dmode.
+  pose proof (loop_ok_fin _ L) as LF.
+  apply wp_bind, wp_get; cbn beta iota.
+  destruct msgs as [|m0 ms]; [ p_walk c11; fin_k |].
+  destruct (s_shutting s) eqn:SH; [ p_walk c11; fin_k |].
+  destruct (s_stopping s) eqn:ST; [ p_walk c11; fin_k |].
+  destruct (s_startd s) as [[]|] eqn:SD; [ p_walk c11; fin_k | | p_walk c11; fin_k ].
+  (* the consumer is alive: the block goes to the processor *)
+  assert (DS : dead s = false) by (unfold dead, startd_unfired; rewrite ST, SD; reflexivity).
+  destruct (loop_ok_alive _ L DS) as [SP MB].
+  assert (d = (false, false)) as ->.
+  { destruct d as [[] b]; [ rewrite (PInv_dead _ _ _ _ K eq_refl) in DS; discriminate DS |].
+    destruct b; [| reflexivity]. apply dcons in K. discriminate K. }
+  assert (w = None) as -> by (destruct w; [ specialize (W eq_refl); discriminate W | reflexivity ]).
+  destruct (blk_nonempty _ m0 ms (PInv_acn _ _ _ K)) as [tl Hblk].
+  set (n := if c_acn (s_cf s) =? 0 then length (m0 :: ms) else Z.to_nat (c_acn (s_cf s))) in *.
+  rewrite Hblk. set (rest := drop n (m0 :: ms)). set (last := List.last (m0 :: tl) m0).
+  assert (MB' : dead s || is_some (s_mblock s) = true) by (rewrite MB; apply orb_true_r).
+  assert (FIN : forall r g st, g = pw_finish (mkPW PIdle (s_plan st) (s_lp st)) last r ->
+                 PInv (false, false) None st -> s_proc st = None -> dead st || is_some (s_mblock st) = true ->
+                 ww (tail_of last rest r)
+                    (fun (_ : res unit) (g' : gpw) (s' : state) =>
+                       g' = pw_abs None s' /\
+                       (PInv (false, false) None s' \/
+                        KProcLoop (m0 :: ms) = KStop /\ Some false = None /\ PInv (false, false) None s')) g st).
+  { intros r g st -> K1 SP1 MB1. eapply wp_conseq; [ apply (p_tail last rest r st K1 SP1 MB1) |].
+    intros ? ? ? [-> H]. split; [reflexivity | left; exact H]. }
+  apply wp_bind.
+  destruct (s_plan s) as [|[i r] pl] eqn:PL.
+  - (* no plan left: the processor returns a pending Deferred *)
+    apply wp_emit. eexists. split. { unfold pw_abs. cbn [pw_out w_st w_plan w_lp]. rewrite SP, PL. reflexivity. }
+    cbn beta iota. unfold pop_plan. apply wp_bind, wp_bind, wp_get. cbn beta iota. rewrite PL. apply wp_ret. cbn beta iota.
+    cbn [fst snd]. change (0 =? 1) with false. change (0 =? 2) with false. cbn beta iota.
+    apply wp_bind, wp_ret. cbn beta iota.
+    apply (FIN 2 _ s); auto. unfold pw_finish. cbn. rewrite PL. reflexivity.
+  - assert (K1 : PInv (false, false) None (set_plan pl s)) by psolve.
+    assert (POP : forall (Q : res (Z * Z) -> gpw -> state -> Prop) g,
+              (Q (Ok (i, r)) g (set_plan pl s)) -> ww pop_plan Q g s).
+    { intros Q g HQ. unfold pop_plan. apply wp_bind, wp_get. cbn beta iota. rewrite PL. apply wp_bind, wp_upd. cbn beta iota.
+      apply wp_ret. exact HQ. }
+    destruct (i =? 1) eqn:I1; [| destruct (i =? 2) eqn:I2].
+    + (* the processor calls consumer.stop() before returning *)
+      apply wp_emit. eexists. split.
+      { unfold pw_abs. cbn [pw_out w_st w_plan w_lp]. rewrite SP, PL. cbn [fst snd]. rewrite I1. reflexivity. }
+      cbn beta iota. apply wp_bind, POP. cbn beta iota. cbn [fst snd]. rewrite I1.
+      apply wp_bind. unfold api_stop. apply wp_bind, wp_try.
+      change {| w_st := PApi (List.last (m0 :: tl) m0) r; w_plan := pl; w_lp := s_lp s |}
+        with (pw_abs (Some (last, r)) (set_plan pl s)).
+      eapply wp_conseq; [ apply (Hrec_stop (false, false) (Some (last, r)) (set_plan pl s) K1);
+                          [ intros _; psimpl; exact SP | psimpl; rewrite SD; reflexivity ] |].
+      intros r1 g1 s1 [-> K2]. cbn beta iota. apply wp_bind, wp_get. cbn beta iota.
+      assert (FIN1 : ww (tail_of last rest r)
+                   (fun (_ : res unit) (g' : gpw) (s' : state) =>
+                    g' = pw_abs None s' /\
+                    (PInv (false, false) None s' \/
+                     KProcLoop (m0 :: ms) = KStop /\ Some false = None /\ PInv (false, false) None s'))
+                   (pw_finish (mkPW PIdle (s_plan s1) (s_lp s1)) last r) s1).
+      { apply (FIN r _ s1 eq_refl); [ psolve | | ].
+        - pose proof (PInv_dead _ _ _ _ K2 eq_refl). clear - K2. psolve.
+        - rewrite (PInv_dead _ _ _ _ K2 eq_refl). reflexivity. }
+      destruct r1; apply wp_emit; eexists; (split; [reflexivity|]); cbn beta iota; exact FIN1.
+    + (* the processor calls consumer.commit() before returning *)
+      apply wp_emit. eexists. split.
+      { unfold pw_abs. cbn [pw_out w_st w_plan w_lp]. rewrite SP, PL. cbn [fst snd]. rewrite I1, I2. reflexivity. }
+      cbn beta iota. apply wp_bind, POP. cbn beta iota. cbn [fst snd]. rewrite I1, I2.
+      apply wp_bind. unfold api_commit. apply wp_bind, wp_get. cbn beta iota. apply wp_bind, wp_upd. cbn beta iota.
+      apply wp_bind, wp_try.
+      change {| w_st := PApi (List.last (m0 :: tl) m0) r; w_plan := pl; w_lp := s_lp s |}
+        with (pw_abs (Some (last, r)) (set_ncommit (s_ncommit (set_plan pl s) + 1) (set_plan pl s))).
+      assert (K2 : PInv (false, false) (Some (last, r)) (set_ncommit (s_ncommit (set_plan pl s) + 1) (set_plan pl s))) by psolve.
+      eapply wp_conseq; [ apply (p_commit _ _ _ _ K2) |].
+      intros r1 g1 s1 ((-> & K3) & (F1 & F2 & F3 & F4) & F5). cbn beta iota. psimpl.
+      assert (FIN1 : ww (tail_of last rest r)
+                   (fun (_ : res unit) (g' : gpw) (s' : state) =>
+                    g' = pw_abs None s' /\
+                    (PInv (false, false) None s' \/
+                     KProcLoop (m0 :: ms) = KStop /\ Some false = None /\ PInv (false, false) None s'))
+                   (pw_finish (mkPW PIdle (s_plan s1) (s_lp s1)) last r) s1).
+      { apply (FIN r _ s1 eq_refl); [ exact K3 | congruence | ].
+        rewrite F2. apply orb_true_iff. right. exact MB. }
+      destruct r1 as [[cr|]|k]; cbn beta iota.
+      * apply wp_bind, wp_emit. eexists. split; [reflexivity|]. cbn beta iota.
+        apply wp_emit. eexists. split; [reflexivity|]. cbn beta iota. exact FIN1.
+      * apply wp_emit. eexists. split; [reflexivity|]. cbn beta iota. exact FIN1.
+      * apply wp_emit. eexists. split; [reflexivity|]. cbn beta iota. exact FIN1.
+    + (* it returns / raises / returns a Deferred without calling back *)
+      apply wp_emit. eexists. split.
+      { unfold pw_abs. cbn [pw_out w_st w_plan w_lp]. rewrite SP, PL. cbn [fst snd]. rewrite I1, I2. reflexivity. }
+      cbn beta iota. apply wp_bind, POP. cbn beta iota. cbn [fst snd]. rewrite I1, I2.
+      apply wp_bind, wp_ret. cbn beta iota.
+      apply (FIN r _ (set_plan pl s) eq_refl); [ exact K1 | psimpl; exact SP | psimpl; exact MB' ].
+Qed.
+
+Lemma p_body k d w g s : PreD k d w g s -> ww (body rec k) (PostD k d w s) g s.
+Proof.
+  intro Pre. destruct k.
+  - destruct Pre as (-> & K & W). apply p_body_KStop; auto.
+  - destruct Pre as (-> & K & W). apply p_body_KStopCds; auto.
+  - apply p_body_KFireProc; auto.
+  - destruct Pre as (-> & K & W & L). apply p_body_KProcLoop; auto.
+  - destruct Pre as (-> & K & W). apply p_body_KFetchResp; auto.
+  - destruct Pre as (-> & K & W). apply p_body_KCommitAndStop; auto.
+  - destruct Pre as (-> & K & W). apply p_body_KShutFinish; auto.
+  - destruct Pre as (-> & K & W). apply p_body_KFireCd; auto.
+  - destruct Pre as (-> & K & W). apply p_body_KDeliver; auto.
+Qed.
+End Rec.
+
+Lemma p_run fuel : forall k d w g s, PreD k d w g s -> ww (run fuel k) (PostD k d w s) g s.
+Proof.
+  induction fuel as [|f IH]; intros k d w g s Pre.
+  - intros r s' o E F. cbn in E. unfold bind, emit, raise in E. inversion E; subst. discriminate F.
+  - cbn [run]. apply p_body; auto.
+Qed.
